@@ -23,11 +23,24 @@ class BufferPool(object):
     self.ever = set()        # every id ever issued
     self.reissued = 0        # how often a released id was handed out again
     self.peak = 0
+    self.limbo = {}          # ids named by a message the switch refused without any visible effect: kept or consumed
 
   def outstanding(self):
     return sorted(self.out)
 
+  def suspend(self, bid):
+    """the message that named the id was refused and nothing was emitted: the switch may have kept the packet"""
+    self.limbo[bid] = self.out.pop(bid)
+
+  def settle(self, bid):
+    """a limbo id turned out to be (or is from now on) consumed"""
+    self.limbo.pop(bid, None)
+    if bid in self.released:
+      self.released.remove(bid)
+    self.released.append(bid)
+
   def store(self, bid, frame, in_port):
+    self.limbo.pop(bid, None)
     if bid in self.released:
       self.released.remove(bid)
       self.reissued += 1
@@ -53,12 +66,28 @@ class BufferPool(object):
     return [b for b in self.released if b not in self.out]
 
 
+def set_dl_dst(frame, mac):
+  return bytes(mac) + frame[6:]
+
+
+def set_vlan_vid(frame, vid):
+  """OF 1.0 OFPAT_SET_VLAN_VID: rewrite the VLAN id of a tagged frame; an untagged frame gets a new
+  802.1Q header with that id and priority 0."""
+  if frame[12:14] == b"\x81\x00":
+    tci = struct.unpack("!H", frame[14:16])[0]
+    return frame[:14] + struct.pack("!H", (tci & 0xf000) | (vid & 0x0fff)) + frame[16:]
+  return frame[:12] + b"\x81\x00" + struct.pack("!H", vid & 0x0fff) + frame[12:]
+
+
 def expected_outputs(actions, frame, in_port, ports):
-  """What a list of plain output actions does with a frame that came in on in_port.
+  """What a list of output actions, possibly preceded by simple header rewrites, does with a frame that
+  came in on in_port.
   actions: list of ("port", n) | ("in_port",) | ("flood",) | ("all",) | ("ctl", max_len)
-  Returns (sorted list of (port, frame) emissions, list of max_len for packet-ins).
-  OF 1.0 section 3.3 / 5.2.4: a packet is not sent back out of its ingress port unless
-  OFPP_IN_PORT is named explicitly; FLOOD and ALL exclude the ingress port."""
+           | ("set_dl_dst", mac bytes) | ("set_vlan_vid", vid)
+  Returns (sorted list of (port, frame) emissions, list of (max_len, frame as it is at that action) for
+  packet-ins).  Actions apply in order, each output sees the rewrites before it (OF 1.0 section 3.3).
+  A packet is not sent back out of its ingress port unless OFPP_IN_PORT is named explicitly;
+  FLOOD and ALL exclude the ingress port."""
   emits = []
   ctl = []
   for a in actions:
@@ -74,7 +103,11 @@ def expected_outputs(actions, frame, in_port, ports):
         if p != in_port:
           emits.append((p, frame))
     elif k == "ctl":
-      ctl.append(a[1])
+      ctl.append((a[1], frame))
+    elif k == "set_dl_dst":
+      frame = set_dl_dst(frame, a[1])
+    elif k == "set_vlan_vid":
+      frame = set_vlan_vid(frame, a[1])
     else:
       raise ValueError("unknown action kind %r" % (k,))
   return sorted(emits), ctl
@@ -94,6 +127,14 @@ def encode_actions(actions):
       out += cb.action_output(cb.OFPP_ALL, 0)
     elif k == "ctl":
       out += cb.action_output(cb.OFPP_CONTROLLER, a[1])
+    elif k == "set_dl_dst":
+      out += cb.action_set_dl(cb.OFPAT_SET_DL_DST, a[1])
+    elif k == "set_vlan_vid":
+      out += struct.pack("!HHH2x", cb.OFPAT_SET_VLAN_VID, 8, a[1] & 0xffff)
+    elif k == "bad":
+      out += cb.action_raw(a[1])
+    elif k == "vendor":
+      out += cb.action_vendor(a[1], b"\0" * 8)
     else:
       raise ValueError("unknown action kind %r" % (k,))
   return out
